@@ -9,6 +9,7 @@ import Emu2a.Spec.BusMap
 import Emu2a.Spec.Supervision
 import Emu2a.Spec.Opcodes
 import Emu2a.Spec.Isa
+import Emu2a.Spec.BoardSpec
 import Emu2a.Model.Flow
 open Emu2a
 
@@ -30,6 +31,7 @@ def boolOf : String → Option Bool | "0" => some false | "1" => some true | _ =
 structure St where
   m : Machine
   bspec : BusSpec := BusSpec.new
+  board : BSpec := BSpec.new
 
 def Emu2a.BusSpec.str (s : BusSpec) : String :=
   s!"ram={ramHash s.ram} out={hex2 s.outFE}{hex2 s.outFF} in={hex2 s.in0}{hex2 s.in1}{hex2 s.in2}{hex2 s.in3} mask={hex2 s.mask} do={hex2 s.do1}{hex2 s.do2} di={hex2 s.di1}"
@@ -77,7 +79,7 @@ def applyOp (s : St) (ws : List String) : St × String :=
   let ok (m' : Machine) : St × String := ({ s with m := m' }, "ok")
   let bad : St × String := (s, "bad-op")
   match ws with
-  | ["new"] => ({ s with m := Machine.new, bspec := BusSpec.new }, "ok")
+  | ["new"] => ({ s with m := Machine.new, bspec := BusSpec.new, board := BSpec.new }, "ok")
   | ["load", ss, ps, hx] =>
     match parseSS ss, parsePS ps, parseHexBytes (if hx = "-" then [] else hx.toList) with
     | some ss, some ps, some img =>
@@ -225,6 +227,45 @@ def applyOp (s : St) (ws : List String) : St × String :=
   | ["spec.c04", micr, ie] =>
     (s, s!"count={if micr = "1" && ie = "1" then 1 else 0} transparent=1")
   | ["spec.c04pair"] => (s, "count_le_2=1 transparent=1")
+  | ["spec.bw", port, v] =>
+    match port.toNat?, byteOf v with
+    | some port, some v =>
+      let a := BitVec.ofNat 8 (0xF0 + port % 4)
+      let bs := match port % 4 with
+        | 0 => s.board.writeF0 v | 1 => s.board.writeF1 v | 2 => s.board.writeF2 v | _ => s.board.writeF3
+      ({ s with m := m.mapBus (·.write a v), board := bs }, "ok")
+    | _, _ => bad
+  | ["spec.bset", kind, v] =>
+    match v.toNat? with
+    | some n =>
+      let bv := BitVec.ofNat 8 n
+      let p := n != 0
+      match kind with
+      | "di1" => ({ s with m := m.mapBoard (·.setDi1 bv), board := s.board.setDi1 bv }, "ok")
+      | "temp" => ({ s with m := m.mapBoard (·.setTemp n), board := s.board.setTemp n }, "ok")
+      | "ai1" => ({ s with m := m.mapBoard (·.setAi1 n), board := s.board.setAi1 n }, "ok")
+      | "ai2" => ({ s with m := m.mapBoard (·.setAi2 n), board := s.board.setAi2 n }, "ok")
+      | "j1" => ({ s with m := m.mapBoard (·.setJ1 p), board := s.board.setJ1 p }, "ok")
+      | "j2" => ({ s with m := m.mapBoard (·.setJ2 p), board := s.board.setJ2 p }, "ok")
+      | "uio1" => ({ s with m := m.mapBoard (·.setUio1 p), board := s.board.setUio1 p }, "ok")
+      | "uio2" => ({ s with m := m.mapBoard (·.setUio2 p), board := s.board.setUio2 p }, "ok")
+      | "uio3" => ({ s with m := m.mapBoard (·.setUio3 p), board := s.board.setUio3 p }, "ok")
+      | _ => bad
+    | none => bad
+  | ["spec.bd"] =>
+    let b := s.board
+    (s, s!"dasr={hex2 b.dasr} daisr={hex2 b.daisr} di={hex2 b.di1} ao={BSpec.volt b.do1},{BSpec.volt b.do2} period={b.fanPeriod.toNat} in={b.temp},{b.ai1},{b.ai2}")
+  | ["spec.clamp", v] =>
+    match v.toNat? with
+    | some n => (s, toString (BSpec.clampV n))
+    | none => bad
+  | ["spec.clampall"] => (s, "ok")
+  | ["spec.tab", v] =>
+    match byteOf v with
+    | some b =>
+      let bd := Board.setDo1 Board.new b
+      (s, s!"{bd.ao1} {bd.fanRpm} {bd.fanPeriod.toNat}")
+    | none => bad
   | ["spec.asmstep"] => (s, "equal")
   | ["spec.cpureset"] =>
     (s, "a=0 ir=2 r=0000000000000000 pr=- pf=0 pi=0 alu=00000 lb=00 run=R w=0 out=0000 micr=00 ucr=00 kept=1")
